@@ -102,9 +102,11 @@ let parse_item (s : string) : item =
   | _ -> failwith ("bad item " ^ s)
 
 let parse_op = function
-  | "R" -> Read | "W" -> Write | "I" -> Invoke | s -> failwith ("bad op " ^ s)
+  | "R" -> Read | "W" | "C" -> Write | "I" -> Invoke | s -> failwith ("bad op " ^ s)
 
-type preq = { rq : imreq; swaps : (int * int * int) list; nitems : int }
+(* cont: a continuation chunk (op C) of the preceding write on the same exchange; its rq_elapsed is
+   the wait before it (made cumulative when the chunks are grouped) *)
+type preq = { rq : imreq; swaps : (int * int * int) list; nitems : int; cont : bool; is_write : bool }
 
 let parse_req (s : string) : preq =
   match String.split_on_char ',' s with
@@ -118,7 +120,7 @@ let parse_req (s : string) : preq =
                               | [j; a] -> (int_of_string k, int_of_string j, int_of_string a)
                               | _ -> (int_of_string k, int_of_string j, 0))
                          | _ -> failwith ("bad swap " ^ x)) ':' swaps;
-        nitems = List.length its }
+        nitems = List.length its; cont = (op = "C"); is_write = (op = "W" || op = "C") }
   | _ -> failwith ("bad request " ^ s)
 
 (* ---- printing *)
@@ -234,26 +236,91 @@ let () =
           let cfg j a = { cf_node = nd_arr.(min j (Array.length nd_arr - 1));
                           cf_fabs = tab_arr.(min a (Array.length tab_arr - 1)) } in
           let c0 = cfg 0 0 in
+          (* group every write with the continuation chunks that follow it *)
+          let rec groups (l : preq list) : preq list list =
+            match l with
+            | [] -> []
+            | r :: rest when r.is_write ->
+                let rec take acc = function
+                  | c :: tl when c.cont -> take (c :: acc) tl
+                  | tl -> (List.rev acc, tl) in
+                let (cs, tl) = take [] rest in
+                (r :: cs) :: groups tl
+            | r :: rest -> [r] :: groups rest in
+          let swl r = List.map (fun (kk, j, a) -> (nat_of_int kk, cfg j a)) r.swaps in
+          let fuel_of r = nat_of_int ((r.nitems + 1) * (leaves_sum + 2) + 2) in
+          (* the chunks of a group: elapsed accumulates over the waits *)
+          let chunks_of (g : preq list) : wchunk list =
+            let acc = ref N0 in
+            List.mapi (fun i r ->
+              (if i = 0 then acc := r.rq.rq_elapsed else acc := N.add !acc r.rq.rq_elapsed);
+              { ch_flag = r.rq.rq_flag; ch_elapsed = !acc; ch_items = r.rq.rq_items }) g in
+          let rqs_groups = groups rqs in
           if spec_mode then begin
             let impl = match String.split_on_char ' ' impl_line with
               | "Q" :: _ :: rest -> rest
               | _ -> [] in
             let buf = Buffer.create 16 in
-            List.iteri (fun k r ->
-              let sw = List.map (fun (kk, j, a) -> (nat_of_int kk, cfg j a)) r.swaps in
-              match List.nth_opt impl k with
-              | None -> Buffer.add_char buf '.'
-              | Some s ->
-                  (try
-                     let resp = parse_resp s in
-                     Buffer.add_char buf (if holds max_paths who c0 sw r.rq resp then '1' else '0')
-                   with Unparsed | Not_found | Invalid_argument _ | Failure _ -> Buffer.add_char buf '.')) rqs;
+            let pos = ref 0 in
+            List.iter (fun g ->
+              let n = List.length g in
+              let toks = List.init n (fun i -> List.nth_opt impl (!pos + i)) in
+              pos := !pos + n;
+              let head = List.hd g in
+              let verdict =
+                if List.exists (fun t -> t = None) toks then '.'
+                else begin
+                  try
+                    if head.is_write then begin
+                      (* the answers up to the first N; nothing but N may follow *)
+                      let rec split = function
+                        | Some "N" :: tl -> if List.for_all (fun t -> t = Some "N") tl then [] else raise Unparsed
+                        | Some t :: tl -> parse_resp t :: split tl
+                        | _ -> [] in
+                      let resps = split toks in
+                      (* node / ACL switches are per message: all chunks of a group share those of the head
+                         when they are the same, otherwise each chunk is judged alone *)
+                      let same_sw = List.for_all (fun r -> r.swaps = head.swaps) g in
+                      if same_sw then
+                        (if holds_chunked max_paths who c0 (swl head) head.rq.rq_win head.rq.rq_ff (chunks_of g) resps
+                         then '1' else '0')
+                      else begin
+                        let chs = chunks_of g in
+                        let ok = ref (List.length resps >= 1) in
+                        List.iteri (fun i r ->
+                          match List.nth_opt resps i with
+                          | Some resp ->
+                              let ch = List.nth chs i in
+                              if not (holds max_paths who c0 (swl r) (chunk_req head.rq.rq_win head.rq.rq_ff ch) resp)
+                              then ok := false
+                          | None -> ()) g;
+                        if !ok then '1' else '0'
+                      end
+                    end else begin
+                      match toks with
+                      | [Some t] -> if holds max_paths who c0 (swl head) head.rq (parse_resp t) then '1' else '0'
+                      | _ -> '.'
+                    end
+                  with Unparsed | Not_found | Invalid_argument _ | Failure _ -> '.'
+                end in
+              for _ = 1 to n do Buffer.add_char buf verdict done) rqs_groups;
             Printf.printf "Q %s %s\n" id (Buffer.contents buf)
           end else begin
-            let outs = List.map (fun r ->
-              let sw = List.map (fun (kk, j, a) -> (nat_of_int kk, cfg j a)) r.swaps in
-              let fuel = nat_of_int ((r.nitems + 1) * (leaves_sum + 2) + 2) in
-              show_resp (im_handle fuel max_paths who c0 sw r.rq)) rqs in
+            let outs = List.concat_map (fun g ->
+              let head = List.hd g in
+              if head.is_write then begin
+                let chs = chunks_of g in
+                (* every chunk is a message of its own: the handler-call count of the switches restarts *)
+                let rec go (rs : preq list) (cs : wchunk list) : string list =
+                  match rs, cs with
+                  | r :: rt, ch :: ct ->
+                      let resp = im_handle (fuel_of r) max_paths who c0 (swl r) (chunk_req head.rq.rq_win head.rq.rq_ff ch) in
+                      (match resp with
+                       | RespItems _ -> show_resp resp :: go rt ct
+                       | _ -> show_resp resp :: List.map (fun _ -> "N") rt)
+                  | _, _ -> [] in
+                go g chs
+              end else [show_resp (im_handle (fuel_of head) max_paths who c0 (swl head) head.rq)]) rqs_groups in
             Printf.printf "Q %s %s\n" id (String.concat " " outs)
           end
       | _ -> if line <> "" then failwith ("bad line: " ^ line)
